@@ -58,7 +58,9 @@ class C05(Prop):
                   "returned true over 64 completed resident pushes; the chain-walking is_empty returns false and spec_ok accepts the run. "
                   "C05_race_example_run_ok: a racing hand-over case with spec_ok = true. C05_spec_snapshot_completeness_on_model_no_clear: clause S3 "
                   "for data_with calls (every push whose 503 position is below the call's 530 position is in the slices handed to the call) on "
-                  "the model's run of every case whose programs contain no clear_with. "
+                  "the model's run of every case whose programs contain no clear_with; "
+                  "C05_spec_is_empty_true_completeness_on_model_no_clear: clause S3 for is_empty calls that return true (no push has its 503 "
+                  "position below the call's 520 position) on the same cases. "
                   "The open finding is a theorem "
                   "(C05_late_claim_refutes) and so are the two repaired defects (the model of the code before each fix violates spec_ok outside "
                   "the late-claim class, the model after the fix does not). Tied to /repo by (i) replaying generated schedules on the real "
@@ -68,10 +70,13 @@ class C05(Prop):
     level_note = ("NOT proved: C05_spec_completeness_on_model (clause S3 of the trace-level checker) in general, and therefore the conjunction "
                   "C05_spec_ok_on_model. All other clauses are proved on the model's run: S0, S1, S2, S4 for every case "
                   "(C05_spec_ok_on_model_partial2), S5 outside the late-claim class when the run is done (C05_spec_conservation_on_model). Of S3 "
-                  "proved: data_with calls in cases whose programs contain no clear_with (C05_spec_snapshot_completeness_on_model_no_clear). "
-                  "Missing of S3: data_with calls in cases WITH clears (the 541 positions, the alignment of clear calls with their rcas, a detach "
-                  "ledger - which 541 detached which block - for the `clears` disjunct of `accounts`) and is_empty calls (the 520 positions, "
-                  "`empty_end` restated with explicit state, C05_is_empty_sound along the trace); for those S3 is tied to the configuration-level "
+                  "proved, in cases whose programs contain no clear_with: data_with calls (C05_spec_snapshot_completeness_on_model_no_clear) and "
+                  "is_empty calls that return true (C05_spec_is_empty_true_completeness_on_model_no_clear; 520 positions in the trace ledger, "
+                  "C05_is_empty_sound's chain-walk invariant along the trace). "
+                  "Missing of S3: is_empty calls that return false, in every case (`empty_end` restated with explicit state and a ledger 'a set "
+                  "bit has a 503 position in the trace'); data_with and is_empty = true calls in cases WITH clears (the 541 positions, the "
+                  "alignment of clear calls with their rcas, a detach ledger - which 541 detached which block - for the `clears` disjunct of "
+                  "`accounts`); for those S3 is tied to the configuration-level "
                   "theorems only by evaluation (spec_ok on every replayed schedule, model agreeing step by step, stress oracle). Corrected oracle defect: "
                   "Exec.final_data's constant fuel (400) replaced by 4 * blocks + 8, proved sufficient. The conservation theorem speaks about "
                   "configurations (slots, ownership, per-thread delivered lists); its reading as 'completed = delivered (+) resident' uses "
